@@ -260,4 +260,50 @@ MUTANTS = [
         if self.description and len(self.description) > 60:
             return self._validate_description()
         self._assert_not_blank("description")""")]},
+    # ---- C20 over the simulated network (compose addressed by URL)
+    {"name": "c20-url-compose-dir-joined-with-urljoin", "prop": "C20", "edits": [(CD, """        path = os.path.join(compose_path, "compose")
+        if _file_exists""", """        path = os.path.join(compose_path, "compose")
+        if "://" in compose_path:
+            from six.moves.urllib.parse import urljoin
+            path = urljoin(compose_path, "compose")
+        if _file_exists""")]},
+    {"name": "c20-url-legacy-file-names-not-tried", "prop": "C20", "edits": [(CD, """        for i in paths:
+            path = os.path.join(self.compose_path, i)""", """        for i in (paths[:1] if "://" in self.compose_path else paths):
+            path = os.path.join(self.compose_path, i)""")]},
+    {"name": "c20-url-existence-answers-remembered", "prop": "C20", "edits": [(CM, """def _file_exists(path):
+    if path.startswith(("http://", "https://", "ftp://")):
+        try:
+            file_obj = _urlopen(path)
+            file_obj.close()
+        except six.moves.urllib.error.URLError:
+            return False
+        return True""", """_SEEN = {}
+
+
+def _file_exists(path):
+    if path.startswith(("http://", "https://", "ftp://")):
+        if path in _SEEN:
+            return _SEEN[path]
+        try:
+            file_obj = _urlopen(path)
+            file_obj.close()
+        except six.moves.urllib.error.URLError:
+            _SEEN[path] = False
+            return False
+        _SEEN[path] = True
+        return True""")]},
+    {"name": "c20-url-response-read-bounded", "prop": "C20", "edits": [(CM, """            reader = codecs.getreader("utf-8")
+            parser = json.load(reader(f))""", """            parser = json.loads(f.read(1 << 10).decode("utf-8"))""")]},
+    {"name": "c20-url-failed-transfer-leaves-empty-object-cached", "prop": "C20", "edits": [(CD, """        obj = cls()
+        try:
+            obj.load(path)
+        except ValueError as exc:""", """        obj = cls()
+        try:
+            obj.load(path)
+        except (IOError, EOFError, six_http.HTTPException):
+            return obj
+        except ValueError as exc:"""), (CD, """from productmd.common import _file_exists
+""", """from productmd.common import _file_exists
+from six.moves import http_client as six_http
+""")]},
 ]
